@@ -10,6 +10,7 @@ PACK = 60
 
 
 def generate(tier, seed):
+    rnd = random.Random(seed * 7919 + 13)
     g3 = C.run_tlc("Gen_Project", "Gen_Project_graphs3", workers=4, timeout=900, heap="8g").json_lines("REPLAY")
     ge = C.run_tlc("Gen_Project", "Gen_Project_edges", workers=4, timeout=900, heap="8g").json_lines("REPLAY")
     gl = C.run_tlc("Gen_Project", "Gen_Project_layouts", workers=4, timeout=900, heap="8g").json_lines("REPLAY")
@@ -20,7 +21,22 @@ def generate(tier, seed):
     gp = C.run_tlc("Gen_Project", "Gen_Project_pairroots", workers=4, timeout=900, heap="8g").json_lines("REPLAY")
     if len(gp) < 160:
         raise C.ToolError("pair-root generation incomplete: %d" % len(gp))
-    total = (len(g3), len(ge), len(gl), len(gd), len(g2), len(gp))
+    gk = C.run_tlc("Gen_Project", "Gen_Project_kinds", workers=4, timeout=900, heap="8g").json_lines("REPLAY")
+    if len(gk) < 288:
+        raise C.ToolError("node-kind generation incomplete: %d" % len(gk))
+    if tier == "quick":
+        seen = set()
+        pick = []
+        rnd.shuffle(gk)
+        for c in gk:
+            nkd = c["nodekind"]
+            ectx = sorted({e["ctx"] for n in c["edges"] for e in c["edges"][n]})
+            ks = [("k", nkd["B"], nkd["C"], len(c["edges"]["A"])), ("s", nkd["C"], c["roots"][0]["site"], tuple(ectx)), ("r", nkd["A"], c["roots"][0]["site"], c["roots"][0]["ctx"])]
+            if any(k not in seen for k in ks):
+                seen.update(ks)
+                pick.append(c)
+        gk = pick
+    total = (len(g3), len(ge), len(gl), len(gd), len(g2), len(gp), len(gk))
     rnd = random.Random(seed)
     if tier == "quick":
         g3 = rnd.sample(g3, 500)
@@ -65,7 +81,7 @@ def generate(tier, seed):
         gd = pick
         # nested edge contexts: every context pair at the parameter site, a seeded third of them at the return site
         g2 = [c for c in g2 if c["roots"][0]["site"] == "param" or rnd.random() < 0.34]
-    return g3 + ge + gl + gd + g2 + gp, total
+    return g3 + ge + gl + gd + g2 + gp + gk, total
 
 
 def observe(d, cases, modes=("none", "zod"), repeats=1):
